@@ -339,6 +339,12 @@ class Interp(object):
         self.steps = 0
 
     def decide(self, tag):
+        if getattr(self, 'membership_policy', None) == 'single' and isinstance(tag, tuple) and tag and tag[0] == 'in':
+            # the same question asked twice on one path has one answer; and (policy of the extractor summaries) at most one
+            # identifier is taken to be declared global / nonlocal on a path - the per-identifier code is the same for each
+            for t, v in self.decisions:
+                if t == tag:
+                    return v
         i = len(self.decisions)
         v = self.prefix[i][1] if i < len(self.prefix) else False
         self.decisions.append((tag, v))
@@ -380,6 +386,11 @@ class Interp(object):
                     env[local] = SuppModule(SUPP_MODULES[a.name])
                 elif mod == '__future__':
                     pass
+                elif mod == 'weakref' and a.name in ('WeakKeyDictionary', 'WeakValueDictionary'):
+                    # objects of the interpreted program are never collected during a model run: a weak mapping is a mapping
+                    env[local] = Native(a.name, lambda it, a_, k_: dict(*a_, **k_))
+                elif mod == 'collections' and a.name in ('OrderedDict', 'defaultdict') and a.name == 'OrderedDict':
+                    env[local] = Native(a.name, lambda it, a_, k_: dict(*a_, **k_))
                 else:
                     try:
                         m = __import__(mod, fromlist=[a.name]) if mod in ('bisect', 'string', 'sys', 'builtins', 'os.path', 'os', 'contextlib') else None
@@ -397,7 +408,14 @@ class Interp(object):
                 else:
                     env[local] = Unknown('module ' + a.name)
         elif isinstance(st, (ast.FunctionDef, ast.AsyncFunctionDef)):
-            env[st.name] = FuncVal(rel, st)
+            fv = FuncVal(rel, st)
+            if getattr(self, 'apply_module_decorators', False):
+                # a module-level function wrapped by a decorator defined in the same module is what callers get
+                for d in reversed(st.decorator_list):
+                    dec = env.get(d.id) if isinstance(d, ast.Name) else None
+                    if isinstance(dec, FuncVal):
+                        fv = self.call(dec, [fv], {})
+            env[st.name] = fv
         elif isinstance(st, ast.ClassDef):
             ci = self.facts.classes.get(st.name)
             if ci is not None and ci.node is st:
@@ -554,42 +572,87 @@ class Interp(object):
         return frame.yielded if gen else None
 
     def context_manager(self, fv, args, kwargs):
-        """@contextmanager generator with one top-level `yield` (plain, or inside try/finally): the statements before the yield run
-        at __enter__, those after it at __exit__ (only the finally part when the body of the with raised)."""
-        body = list(fv.node.body)
-        idx = None
-        for i, st in enumerate(body):
-            if isinstance(st, ast.Expr) and isinstance(st.value, ast.Yield):
-                idx = (i, None)
-            elif isinstance(st, ast.Try) and not st.handlers and any(isinstance(x, ast.Expr) and isinstance(x.value, ast.Yield) for x in st.body):
-                j = [k for k, x in enumerate(st.body) if isinstance(x, ast.Expr) and isinstance(x.value, ast.Yield)][0]
-                idx = (i, j)
-        nyield = sum(1 for n in ast.walk(fv.node) if isinstance(n, (ast.Yield, ast.YieldFrom)))
-        if idx is None or nyield != 1:
-            raise Uninterpretable('context manager %s: unsupported generator shape' % fv.name)
-        i, j = idx
+        """@contextmanager generator function: the generator body runs in a helper thread that is handed control at __enter__ (up to
+        its first yield) and at __exit__ (from that yield on, with the exception of the with-body thrown in at the yield, as
+        contextlib does); exactly one of the two threads runs at any time, so the interpreter state needs no locking."""
+        import threading
+        it = self
         state = {}
 
-        def enter(it, a, k):
-            frame = self._bind_frame(fv, args, kwargs)
-            state['frame'] = frame
-            self.exec_block(body[:i], frame)
-            if j is not None:
-                self.exec_block(body[i].body[:j], frame)
-                y = body[i].body[j].value.value
-            else:
-                y = body[i].value.value
-            return self.eval(y, frame) if y is not None else None
+        class Gen(object):
+            def __init__(g):
+                g.to_gen = threading.Semaphore(0)
+                g.to_main = threading.Semaphore(0)
+                g.msg = None
+                g.inject = None
+                g.frame = it._bind_frame(fv, args, kwargs)
+                g.frame.gen_thread = g
+                g.thread = threading.Thread(target=g.run, daemon=True)
 
-        def exit_(it, a, k):
-            frame = state['frame']
+            def run(g):
+                g.to_gen.acquire()
+                try:
+                    it.exec_block(list(fv.node.body), g.frame)
+                    g.msg = ('return', None)
+                except _Return as r:
+                    g.msg = ('return', r.value)
+                except BaseException as e:     # InterpRaise / Uninterpretable / anything: re-raised in the caller's thread
+                    g.msg = ('raise', e)
+                g.to_main.release()
+
+            def resume(g, inject=None):
+                g.inject = inject
+                g.to_gen.release()
+                g.to_main.acquire()
+                return g.msg
+
+            def yielded(g, value):            # called in the generator thread by e_Yield
+                g.msg = ('yield', value)
+                g.to_main.release()
+                g.to_gen.acquire()
+                if g.inject is not None:
+                    e, g.inject = g.inject, None
+                    raise e
+
+        def enter(it_, a, k):
+            old = threading.stack_size()
+            try:
+                threading.stack_size(512 * 1024 * 1024)
+            except (ValueError, RuntimeError):
+                pass
+            try:
+                g = state['gen'] = Gen()
+                g.thread.start()
+            finally:
+                try:
+                    threading.stack_size(old)
+                except (ValueError, RuntimeError):
+                    pass
+            kind, v = g.resume()
+            if kind == 'yield':
+                return v
+            if kind == 'raise':
+                raise v
+            raise InterpRaise('RuntimeError', "generator didn't yield")
+
+        def exit_(it_, a, k):
+            g = state['gen']
             failed = bool(a) and a[0] is not None
-            if j is not None:
-                if not failed:
-                    self.exec_block(body[i].body[j + 1:], frame)
-                self.exec_block(body[i].finalbody, frame)
-            if not failed:
-                self.exec_block(body[i + 1:], frame)
+            if failed:
+                exc = a[1] if len(a) > 1 and isinstance(a[1], InterpRaise) else InterpRaise(str(a[0]), 'raised in the body of the with')
+                kind, v = g.resume(exc)
+                if kind == 'yield':
+                    raise InterpRaise('RuntimeError', "generator didn't stop after throw()")
+                if kind == 'raise':
+                    if v is exc:
+                        return False          # the generator let it through: the with statement re-raises it
+                    raise v
+                return True                   # the generator swallowed the exception
+            kind, v = g.resume()
+            if kind == 'yield':
+                raise InterpRaise('RuntimeError', "generator didn't stop")
+            if kind == 'raise':
+                raise v
             return False
         ci = self.facts.classes.get('Unresolved') or next(iter(self.facts.classes.values()))
         return Obj(ci, {'__enter__': Native('__enter__', enter), '__exit__': Native('__exit__', exit_)}, 'context manager ' + fv.name)
@@ -608,6 +671,10 @@ class Interp(object):
         return Frame(fv.rel, self.module_env(fv.rel), local, fv.closure, fv)
 
     def e_Yield(self, e, f):
+        g = getattr(f, 'gen_thread', None)
+        if g is not None:
+            g.yielded(self.eval(e.value, f) if e.value is not None else None)
+            return None
         if getattr(f, 'yielded', None) is None:
             raise Uninterpretable('yield outside an interpreted generator')
         f.yielded.append(self.eval(e.value, f) if e.value is not None else None)
@@ -720,7 +787,12 @@ class Interp(object):
         if isinstance(v, Native) and isinstance(getattr(_builtins, v.name, None), type) \
                 and callable(getattr(getattr(_builtins, v.name), attr, None)):
             um = getattr(getattr(_builtins, v.name), attr)       # unbound method of a builtin type: str.lower, dict.get ...
-            return Native('%s.%s' % (v.name, attr), lambda it, a, k, _m=um: _m(*a, **k), False)
+            def unbound(it, a, k, _m=um):
+                try:
+                    return _m(*a, **k)
+                except Exception as e:       # the builtin's own exception, raised inside the interpreted program
+                    raise InterpRaise(type(e).__name__, str(e))
+            return Native('%s.%s' % (v.name, attr), unbound, False)
         if isinstance(v, Native) and attr in ('__name__', '__doc__'):
             return v.name if attr == '__name__' else None
         if isinstance(v, FuncVal) and attr in ('__name__', '__doc__') and attr not in v.attrs:
@@ -923,7 +995,8 @@ class Interp(object):
         raise Uninterpretable('hash() of %r' % (v,))
 
     def nat_enumerate(self, args, kwargs):
-        return list(enumerate(self.iterate(args[0])))
+        start = args[1] if len(args) > 1 else kwargs.get('start', 0)
+        return list(enumerate(self.iterate(args[0]), start))
 
     def nat_reversed(self, args, kwargs):
         return list(reversed(self.iterate(args[0])))
@@ -1017,17 +1090,35 @@ class Interp(object):
             return ModStub(str(args[0]).partition('.')[0])      # __import__('a.b.c') returns the top-level package a
         return Unknown('module')
 
+    def _is_loc(self, v):
+        return isinstance(v, LocExpr) or (isinstance(v, tuple) and len(v) == 2 and any(isinstance(x, (SymPos, SymPosMix, LocPart)) for x in v))
+
     def nat_max(self, args, kwargs):
         vals = list(args[0]) if len(args) == 1 else list(args)
         if any(isinstance(v, (SymPos, SymPosMix)) for v in vals):
             return SymPosMix('max', vals)
+        if any(self._is_loc(v) for v in vals):
+            # the later of two symbolic positions: which one it is depends on the layout of the text
+            return LocExpr('max', tuple(repr(v) for v in vals))
         return max(vals)
 
     def nat_min(self, args, kwargs):
         vals = list(args[0]) if len(args) == 1 else list(args)
         if any(isinstance(v, (SymPos, SymPosMix)) for v in vals):
             return SymPosMix('min', vals)
+        if any(self._is_loc(v) for v in vals):
+            return LocExpr('min', tuple(repr(v) for v in vals))
         return min(vals)
+
+    def nat_next(self, args, kwargs):
+        v = args[0]
+        if isinstance(v, list):          # generator expressions are materialised: next() takes the first element
+            if v:
+                return v.pop(0)
+            if len(args) > 1:
+                return args[1]
+            raise InterpRaise('StopIteration', '')
+        raise Uninterpretable('next() of %r' % (v,))
 
     def _lt(self, a, b):
         return self.compare(ast.Lt(), a, b, None)
@@ -1750,7 +1841,12 @@ def explore(interp, run, snapshot=None):
         except InterpRaise as e:
             exc = e
         decisions = list(interp.decisions)
+        single = getattr(interp, 'membership_policy', None) == 'single'
         for j in range(len(prefix), len(decisions)):
+            tj = decisions[j][0]
+            if single and isinstance(tj, tuple) and tj and tj[0] == 'in' and \
+                    any(v and isinstance(t, tuple) and t and t[0] == 'in' for t, v in decisions[:j]):
+                continue
             stack.append(decisions[:j] + [(decisions[j][0], True)])
         rec = (decisions, result, exc, list(interp.effects), list(interp.objs))
         if snapshot is not None:
